@@ -31,7 +31,9 @@ MkRS(kf, kg) ==
                        \* reads neither the input nor a function: its value depends on THIS ruleset's symbol table only
                        [name |-> S("r6"), expr |-> Bin("mult", Sym(S("k")), Val(I(2)))],
                        \* a user function that fails (after suspending): the error names the function and carries its message
-                       [name |-> S("r7"), expr |-> Call(S("h"), A)] >>, 1, NRules),
+                       [name |-> S("r7"), expr |-> Call(S("h"), A)],
+                       \* a cast that parses text (the multi-threaded recorder supplies many different `s`)
+                       [name |-> S("r8"), expr |-> VecE(<<Un("year", Un("datetime", Ref(S("s")))), Bin("lt", Un("datetime", Ref(S("s"))), Un("datetime", Val(St("2015-07-30T03:26:13Z"))))>>)] >>, 1, NRules),
    funcs |-> << [name |-> S("f"), cacheable |-> TRUE, suspend |-> kf, script |-> Echo],
                 [name |-> S("g"), cacheable |-> FALSE, suspend |-> kg, script |-> Echo],
                 [name |-> S("h"), cacheable |-> FALSE, suspend |-> kg, script |-> <<[r |-> "fail", msg |-> S("h failed")]>>] >>,
@@ -43,7 +45,9 @@ InputOf(id) == VMap(<< <<S("a"), I(IF Shape = "single" THEN (IF id = 1 THEN 1 EL
 
 SingleRS(kf, kg) == LET full == MkRS(kf, kg) IN [full EXCEPT !.rules = <<full.rules[2]>>]
 TheRS == IF Shape = "single" THEN SingleRS(cfg.kf, cfg.kg) ELSE MkRS(cfg.kf, cfg.kg)
-Init == /\ cfg \in [kf : 0..K, kg : 0..K, same : BOOLEAN]
+\* K > 5 is the scale configuration: a user function that suspends K times (an evaluation polled hundreds of times)
+Ks == IF K <= 5 THEN 0..K ELSE {0, K}
+Init == /\ cfg \in [kf : Ks, kg : Ks, same : BOOLEAN]
         /\ rsv = TheRS
         /\ evals = <<>> /\ gs = InitGs(rsv) /\ hist = <<>>
 
